@@ -23,7 +23,7 @@
    | 2 | durch / hoch / Logarithmus always yield Kommazahl; Zahl operands are    | sitofp, uitofp; fdiv; pow;  |
    |   | converted as signed, Byte operands as UNSIGNED; Logarithmus = log10 a / log10 b | log10/log10          |
    | 3 | modulo truncates like C (sign of the dividend); Byte modulo Byte is unsigned | srem / urem             |
-   | 4 | Zahl (+,-,*,modulo,logisch) Byte gives a Zahl (Byte zero-extended)       | compiler.go 1112,1423 (the typechecker's `else BYTE` branch for +,-,* is C02's finding) |
+   | 4 | Zahl (+,-,*,modulo,logisch) Byte gives a Zahl (Byte zero-extended)       | compiler.go 1112,1423; typechecker since 5ca8f5e |
    | 5 | rechts verschoben is a LOGICAL shift, also on negative Zahlen            | lshr                        |
    | 6 | comparisons with a Kommazahl operand are ordered (false on NaN);         | fcmp o**                    |
    |   | gleich on Kommazahlen is IEEE equality (-0 = +0, NaN <> NaN)             | fcmp oeq                    |
